@@ -1,4 +1,4 @@
-CONSTANTS MaxPool = 5  MaxOps = 12  MaxNodes = 4  NameIds = {0, 1, 2}  Bug = ""  Emit = TRUE
+CONSTANTS MaxPool = 5  MaxOps = 12  MaxNodes = 4  NameIds = {0, 1, 2}  Bug = ""  AllowDetached = FALSE  Emit = TRUE
 INIT Init
 NEXT Next
 VIEW View
